@@ -2133,7 +2133,12 @@ unsafe fn fill_find_data(
     }
 
     // Set plain name pointer (points to last component after backslash)
-    let plain_name_offset = file_entry.name.rfind('\\').map(|pos| pos + 1).unwrap_or(0);
+    let plain_name_offset = file_entry
+        .name
+        .rfind('\\')
+        .map(|pos| pos + 1)
+        .unwrap_or(0)
+        .min(copy_len);
     find_data.sz_plain_name = find_data.c_file_name.as_mut_ptr().add(plain_name_offset);
 
     // Set file information
